@@ -41,6 +41,20 @@ class Ctx:
     env: dict  # name -> ("origin", o) | ("expr", ast, Ctx) | ("term", t)
 
 
+LOSSY_ATTRS = {"name", "stem", "suffix", "parent", "parts", "parents", "anchor", "root", "drive"}
+LOSSY_METHODS = {"lower", "upper", "casefold", "strip", "lstrip", "rstrip", "as_posix", "resolve", "absolute", "relative_to", "with_suffix", "with_name", "replace", "split", "rsplit", "partition", "rpartition", "title", "expanduser", "removeprefix", "removesuffix", "encode", "basename", "dirname", "normpath", "normcase", "realpath", "abspath"}
+
+
+def _lossy(e: ast.expr) -> bool:
+    """Is this expression a recognisably *different* string than the path itself (a component, a case-folded / re-rooted form)?"""
+    for n in ast.walk(e):
+        if isinstance(n, ast.Attribute) and isinstance(n.ctx, ast.Load) and (n.attr in LOSSY_ATTRS or n.attr in LOSSY_METHODS):
+            return True
+        if isinstance(n, ast.Subscript):
+            return True
+    return False
+
+
 def simp(t):
     k = t[0]
     if k == "not":
@@ -205,7 +219,14 @@ class Terms:
             return ("str", self.origin(e.func.value, ctx, depth + 1))
         if isinstance(e, ast.JoinedStr) and len(e.values) == 1 and isinstance(e.values[0], ast.FormattedValue) and e.values[0].format_spec is None and e.values[0].conversion in (-1, 115):
             return ("str", self.origin(e.values[0].value, ctx, depth + 1))
-        return ("other", norm(e, 60))
+        if isinstance(e, ast.IfExp):
+            a, b = self.origin(e.body, ctx, depth + 1), self.origin(e.orelse, ctx, depth + 1)
+            base = {o[1] if o[0] in ("str", "strish") else o for o in (a, b)}
+            if len(base) == 1 and next(iter(base))[0] == "param" and "isinstance" in norm(e.test):
+                return ("strish", next(iter(base)))
+        if isinstance(e, ast.NamedExpr):
+            return self.origin(e.value, ctx, depth + 1)
+        return ("other", norm(e, 60), _lossy(e))
 
     # ------------------------------------------------------------------ expressions
     def truth(self, e: ast.expr, ctx: Ctx, depth: int = 0):
@@ -679,6 +700,9 @@ def run(repo: Repo, res: Result, rule: str, filter_cls: ClassInfo, pred: str) ->
                     break
                 so_ok = (so == ("param", pname) and want_subject in ("param", "either")) or (so == ("str", ("param", pname)) and want_subject in ("str", "either")) or (so == ("strish", ("param", pname)) and want_subject == "either")
                 if not so_ok:
+                    if so[0] == "other" and not (len(so) > 2 and so[2]):
+                        und = und or f"`{norm(node, 70)}` matches the patterns against `{so[1]}`: cannot see whether that is the path's own string"
+                        continue
                     bad = f"`{norm(node, 70)}` matches the patterns against {show_origin(so)} instead of {'the path string itself' if want_subject != 'str' else 'str(path)'}: the path is no longer matched as a whole"
                     break
                 if po[0] == "attr":
